@@ -335,6 +335,7 @@ type filterSpec struct {
 	delSel      int  // id selected by the delete filter (0: none)
 	delSelPay   bool // the delete selector selects on payload field 0 == v1 instead of the id
 	delElements bool // the delete filter names payload field 0
+	delSub      bool // ... and, inside it, only its first sub-element (e.g. value.scale): what exactly is cleared is left open
 }
 
 func (f filterSpec) String() string {
@@ -349,6 +350,9 @@ func (f filterSpec) String() string {
 		}
 		if f.delElements {
 			s += "+elements"
+		}
+		if f.delSub {
+			s += "(sub-element)"
 		}
 		p = append(p, s)
 	}
@@ -391,6 +395,25 @@ func (sp *listSpec) selectorFor(id int, byPayload bool) (any, bool) {
 		set++
 	}
 	return s.Interface(), set > 0
+}
+
+// elementsSubFor: like elementsFor, but the elements value of payload field 0 names its first sub-element only.
+func (sp *listSpec) elementsSubFor() (any, bool) {
+	e, n, ok := sp.elementsFor()
+	if !ok {
+		return nil, false
+	}
+	f := reflect.ValueOf(e).Elem().FieldByName(n).Elem()
+	if f.Kind() != reflect.Struct {
+		return nil, false
+	}
+	for i := 0; i < f.NumField(); i++ {
+		if f.Field(i).Kind() == reflect.Ptr && f.Field(i).Type().Elem().Kind() == reflect.Struct {
+			f.Field(i).Set(reflect.New(f.Field(i).Type().Elem()))
+			return e, true
+		}
+	}
+	return nil, false
 }
 
 func (sp *listSpec) elementsFor() (any, string, bool) {
@@ -439,6 +462,9 @@ func (sp *listSpec) filters(fs filterSpec) (fp, fd *model.FilterType, ok bool) {
 		}
 		if fs.delElements {
 			e, _, ok := sp.elementsFor()
+			if fs.delSub {
+				e, ok = sp.elementsSubFor()
+			}
 			if !ok || !setField(fd, e) {
 				return nil, nil, false
 			}
@@ -463,6 +489,9 @@ func (sp *listSpec) foldUpdate(existing []rec, upd []rec, fs filterSpec) (result
 	upd = cloneRecs(upd)
 	if !fs.partial && !fs.del {
 		return upd, true
+	}
+	if fs.delSub {
+		return nil, false
 	}
 	matchID := func(r rec, id int) bool {
 		want := sp.recOf(sp.build(itemSpec{id: id}))
